@@ -5,6 +5,7 @@ import (
 	"errors"
 	"fmt"
 	"io/fs"
+	"os"
 	"path/filepath"
 	"strings"
 	"sync"
@@ -128,6 +129,12 @@ func loadDirectory(root, configType string, configMap ConfigMap) (err error) {
 		name := strings.ToLower(info.Name())
 
 		if !strings.HasSuffix(name, ".toml") {
+			return nil
+		}
+
+		// only regular files (or links to them) can be configurations: opening e.g. a named pipe would block for ever
+		if st, err := os.Stat(path); err == nil && !st.Mode().IsRegular() {
+			log.Info(fmt.Sprintf("device config %s (%s) skipped: not a regular file", name, configType), logger.Warning)
 			return nil
 		}
 
